@@ -87,6 +87,8 @@ def _run_one(prop: Prop, case):
     except BaseException as e:  # noqa: BLE001 - an escaping exception is itself an observation
         if isinstance(e, (KeyboardInterrupt, SystemExit)):
             raise
+        if type(e).__name__.endswith("InfraError"):
+            return {"__infra__": f"{type(e).__name__}: {e}"}
         return {"__crash__": f"{type(e).__name__}: {e}", "__trace__": traceback.format_exc()[-1500:]}
     finally:
         signal.alarm(0)
@@ -128,6 +130,10 @@ def load_corpus(prop: Prop) -> list:
 def evaluate(prop: Prop, cases: list):
     """Run implementation + model + oracle on `cases`. Returns per-case records and a driver error (or None)."""
     obs = run_impl_many(prop, cases)
+    for o in obs:
+        if isinstance(o, dict) and "__infra__" in o:
+            sys.stderr.write(f"[{prop.id}] infrastructure error, no verdict: {o['__infra__'][:600]}\n")
+            sys.exit(2)
     recs = []
     all_lines, spans = [], []
     for c, o in zip(cases, obs):
